@@ -28,9 +28,9 @@ func init() {
 			{Fn: "H_mw", Params: n(4), Tier: "quick", Reach: []string{"end"}},
 			{Fn: "H_mw", Params: n(5), Tier: "thorough", Reach: []string{"end"}},
 		},
-		Rule:        rule + "; H_step is the inductive step from an arbitrary state satisfying the representation invariant (covers histories of any length), H_hist enumerates all operation sequences of length k from the initial state with symbolic status codes/payloads",
+		Rule:        rule + "; H_step is the inductive step from an arbitrary state satisfying the representation invariant (covers histories of any length), H_hist enumerates all operation sequences of length k from the initial state with symbolic status codes/payloads; H_script_hist assembles a script handler from k operations out of {status, header, write, html(±code), redirect(±code), noContent(±code), writeHeader, cookie}, parses it with the real parser and serves it through the real Handler.ServeHTTP and ResponseWriter*Method wrappers (argument binding, parameter defaults) with symbolic status codes; H_mw checks the middleware order for every priority assignment",
 		Assumptions: []string{"status codes in [100,999] (net/http's own precondition)", "recorder commits on first Write like net/http"},
-		Outside:     []string{"SendFile, Hijack, Flush, response formatter closures", "script-level argument conversion of the ResponseWriter*Method wrappers", "histories longer than 4 outside the inductive argument"},
+		Outside:     []string{"SendFile, Hijack, Flush, response formatter closures (success/error/format/view/file)", "script-level json() (needs encoding/json) and script histories longer than 3", "histories longer than 4 outside the inductive argument"},
 	})
 
 	c03 := func(fn string, p map[string]int) RunDef {
@@ -48,6 +48,7 @@ func init() {
 			c03("H_truth_int", nil), c03("H_truth_float", nil), c03("H_truth_bool", nil), c03("H_truth_null", nil),
 			c03("H_truth_string", n(0)), c03("H_truth_string", n(1)), c03("H_truth_string", n(2)),
 			c03("H_nocrash", nil), c03("H_nocrash_unary", nil),
+			{Fn: "H_eq_laws", Fuel: 30_000_000, Tier: "quick", Reach: []string{"end"}}, c03("H_int_pow", nil),
 		},
 		Rule:        rule + "; operand payloads are full 64-bit ints / full IEEE doubles (FP theory), strings are symbolic byte tuples of the stated length; templates are parsed by the real lexer+parser on every path",
 		Assumptions: []string{"string comparison domain: non-numeric strings (leading byte >= 'A'); NaN ordering excluded", "truthiness of the string \"0\" is only checked for context independence (docs are silent on its value)"},
@@ -59,10 +60,11 @@ func init() {
 		ID:  "C02",
 		Pkg: "verif/harness/c02",
 		Runs: []RunDef{c02("H_for_nested"), c02("H_while_nested"), c02("H_foreach"), c02("H_switch_in_for"), c02("H_func_defaults"), c02("H_static_counter"),
-			c02("H_locals_isolated"), c02("H_if_chain"), c02("H_match"), c02("H_counter_escapes"), c02("H_return_from_loop"), c02("H_repeated_statements")},
-		Rule:        rule + "; each template is parsed by the real parser on every path and run by the real evaluators with symbolic loop limits/trigger indexes in [-1,3] (unbounded ints where no loop depends on them); exit statement kind and level are enumerated by solver-driven case split; the oracle is the same algorithm in Go executed in the same path",
+			c02("H_locals_isolated"), c02("H_if_chain"), c02("H_match"), c02("H_counter_escapes"), c02("H_return_from_loop"), c02("H_repeated_statements"),
+			c02("H_loop_body_exits"), {Fn: "H_static_forms", Fuel: 30_000_000, Tier: "quick", Reach: []string{"end"}}, c02("H_static_recursion")},
+		Rule:        rule + "; each template is parsed by the real parser on every path and run by the real evaluators with symbolic loop limits/trigger indexes in [-1,3] (unbounded ints where no loop depends on them); exit statement kind and level are enumerated by solver-driven case split; the oracle is the same algorithm in Go executed in the same path; H_loop_body_exits puts break/continue under an if in the middle of the body of every loop kind; H_static_forms: 6 update forms x 3 ways of leaving the function x 3 placements of the static declaration; H_static_recursion: frames of a recursive function share the static",
 		Assumptions: []string{"switch fall-through into the next case and a bare 'continue' directly inside switch are not asserted (docs are silent / PHP-specific)"},
-		Outside:     []string{"programs outside the 11 templates", "loop counts > 3, nesting depth > 2", "generators, goto, strings in conditions"},
+		Outside:     []string{"programs outside the 15 templates", "loop counts > 3, nesting depth > 2", "generators, goto, strings in conditions"},
 	})
 
 	reg(Check{
@@ -89,7 +91,7 @@ func init() {
 			{Fn: "H_same_object", Tier: "quick", Reach: []string{"end"}},
 			{Fn: "H_catch_order", Tier: "quick", Reach: []string{"end"}},
 		},
-		Rule:        rule + "; try/catch/finally template inside a loop inside a function with selectors for how the try body (5), the handler (5) and finally (2) exit and which class is thrown (5, incl. a Go-level error), all 250 combinations by solver-driven case split; marker trace and return value compared with the 40-line reference model of B.3",
+		Rule:        rule + "; try/catch/finally template inside a loop inside a function with selectors for how the try body (5), the handler (5) and finally (2) exit and which class is thrown (5, incl. a Go-level error), all 250 combinations by solver-driven case split; marker trace and return value compared with the 40-line reference model of B.3; H_catch_order: every thrown class x every ordered pair of catch clause types (first match in source order); H_same_object: the caught object is the thrown one",
 		Assumptions: []string{"a Go-level error (1 % 0) is a Throwable that also matches catch (Exception)"},
 		Outside:     []string{"process exit status and stderr of uncaught throwables / parse errors (decided per OS process: no symbolic dimension)", "nesting depth > 2", "hierarchies beyond the 4-class fixture"},
 	})
@@ -130,7 +132,7 @@ func init() {
 			{Fn: "H_types", Tier: "quick", Reach: []string{"end"}},
 			{Fn: "H_abstract", Tier: "quick", Reach: []string{"end"}},
 		},
-		Rule:        rule + "; (7 member kinds x 3 modifiers) x (5 access sites) and (6 declared types x 9 runtime value kinds) x (3 boundaries) enumerated completely by solver-driven case split over one fixture family; the written payload is a symbolic int, so a denied write is shown to leave the member unchanged for every value. The structural dimension is exhaustive enumeration executed through the engine; the universal (solver) part is payload independence",
+		Rule:        rule + "; (7 member kinds x 3 modifiers) x (5 access sites) and (6 declared types x 9 runtime value kinds) x (3 boundaries) enumerated completely by solver-driven case split over one fixture family; the written payload is a symbolic int, so a denied write is shown to leave the member unchanged for every value; every attempt of H_abstract (instantiating an abstract / incomplete class) is made three times in one run, so a verdict cached after the first attempt is observed. The structural dimension is exhaustive enumeration executed through the engine; the universal (solver) part is payload independence",
 		Assumptions: []string{"strict typing: a declared scalar type accepts exactly values of that type (no coercion)"},
 		Outside:     []string{"hierarchy-shape variation, enum/readonly, traits", "static:: / self:: access paths, __get/__set"},
 	})
@@ -143,7 +145,7 @@ func init() {
 			{Fn: "H_hierarchy", Params: map[string]int{"implbits": 16}, Fuel: 30_000_000, Tier: "quickonly", Reach: []string{"end"}},
 			{Fn: "H_hierarchy", Params: map[string]int{"implbits": 64}, Fuel: 30_000_000, Tier: "thorough", Reach: []string{"end"}},
 		},
-		Rule:    rule + "; the hierarchy is the quantified dimension: parent links of 3 classes (single inheritance), extends edge between 2 interfaces, implements matrix, override bits — every shape (quick: 768 with C0 implementing nothing, thorough: all 3072) is assembled as script text, registered by the real class/interface parsers and checked for all (object, type) pairs (instanceof, typed parameter, catch) and all dispatch forms (virtual call, parent::, self::, static::, like) against reachability computed by a 15-line closure. No scalar dimension: the engine degenerates to exhaustive bounded enumeration here",
+		Rule:    rule + "; the hierarchy is the quantified dimension: parent links of 3 classes (single inheritance), extends edge between 2 interfaces, implements matrix, override bits — every shape (quick: 768 with C0 implementing nothing, thorough: all 3072; H_iface_chain: 3 interfaces with every extends shape among them, incl. chains of depth 3) is assembled as script text, registered by the real class/interface parsers and checked for all (object, type) pairs (instanceof, typed parameter, catch) and all dispatch forms (virtual call, parent::, self::, static::, like) against reachability computed by a 15-line closure. No scalar dimension: the engine degenerates to exhaustive bounded enumeration here",
 		Outside: []string{"4-5 classes, 3-4 interfaces, multiple interface extends", "like with more than 3 probe interfaces"},
 	})
 
@@ -157,8 +159,8 @@ func init() {
 			{Fn: "H_history", Params: k(3), Fuel: 20_000_000, Tier: "quick", Reach: []string{"end"}},
 			{Fn: "H_history", Params: k(4), Fuel: 30_000_000, Tier: "thorough", Reach: []string{"end"}},
 		},
-		Rule:    rule + "; every history of k steps over {instantiate Box<int|string|array|U> into one of 2 slots, write a value of kind int|string|array|U into a slot's T-typed property, pass it to a T-typed method parameter}; the script is assembled per path and parsed by the real generic-class parser; expected acceptance is computed per instance from its own type argument. Structural enumeration through the engine; the int payload is symbolic",
-		Outside: []string{"two-parameter generic classes", "concurrent instantiation (only sequential orders)", "histories longer than 4"},
+		Rule:    rule + "; every history of k steps over {instantiate Box<int|string|array|U> into one of 2 slots, write a value of kind int|string|array|U into a slot's T-typed property, pass it to a T-typed method parameter}; the script is assembled per path and parsed by the real generic-class parser; expected acceptance is computed per instance from its own type argument; H_members: Pair<K,V> with three typed members touched in every order; H_two: two instantiations alive at once. Structural enumeration through the engine; the int payload is symbolic",
+		Outside: []string{"generic classes with more than two parameters, generic functions", "concurrent instantiation (only sequential orders)", "histories longer than 4"},
 	})
 
 	reg(Check{
@@ -234,9 +236,9 @@ func init() {
 			{Fn: "H_two", Fuel: 30_000_000, Tier: "thorough", Sched: true, Preempt: 3, Reach: []string{"end"}, NativeTwin: "N_reentrant"},
 			{Fn: "H_two_locals", Fuel: 30_000_000, Tier: "thorough", Sched: true, Preempt: 3, Reach: []string{"end"}, NativeTwin: "N_reentrant"},
 		},
-		Rule:        rule + "; two requests with distinct parameters are served by the real Handler.ServeHTTP (beginRequest/beginResponse, per-request Context, script handler parsed by the real parser) in two engine threads; the package-level superglobal caches are marked shared so each access is a schedule point and all interleavings within the preemption bound are explored; each response body must equal what the handler yields for that request alone; handler 1 reads $_GET twice around a loop, handler 2 uses the request object, locals, a loop, an array and an object only",
+		Rule:        rule + "; two requests with distinct parameters are served by the real Handler.ServeHTTP (beginRequest/beginResponse, per-request Context, script handler parsed by the real parser) in two engine threads; the package-level superglobal caches are marked shared so each access is a schedule point and all interleavings within the preemption bound are explored; each response body must equal what the handler yields for that request alone; handler 1 reads $_GET twice around a loop, handler 2 uses the request object, locals, a loop, an array and an object only; H_two_middleware puts a closure middleware (real newMiddleware) around the handler, with a local written before and read after $next()",
 		Assumptions: []string{"requests are built directly (no sockets); the recorder is a plain http.ResponseWriter", "internal/godebug settings read as unset"},
-		Outside:     []string{"3-64 requests in flight, middlewares, sessions, $_FILES, $_POST/$_COOKIE/$_SERVER handlers", "seeded parallel load (different technique family)"},
+		Outside:     []string{"3-64 requests in flight, middleware stacks deeper than 1, sessions, $_FILES, $_POST/$_COOKIE/$_SERVER handlers", "seeded parallel load (different technique family)"},
 	})
 
 	c17 := func(fn string, p map[string]int) RunDef {
@@ -267,13 +269,13 @@ func init() {
 			c01("H_lex", n(0), "quick", "lexed"), c01("H_lex", n(1), "quick", "lexed"),
 			c01("H_lex_template", n(0), "quick", "lexed"), c01("H_lex_template", n(1), "quick", "lexed"),
 			c01("H_parse", n(0), "quick", "parsed"), c01("H_parse", n(1), "quick", "parsed", "accepted", "rejected"),
-			c01("H_lex", map[string]int{"n": 2, "ctx": 0}, "quick", "lexed"),
+			c01("H_lex", n(2), "quick", "lexed"),
 			c01("H_parse", map[string]int{"n": 2, "ctx": 0}, "quick", "parsed"),
 			c01("H_snip", n(0), "quick", "parsed", "accepted", "rejected", "ran"),
 			c01("H_snip", map[string]int{"n": 1, "lo": 0, "hi": 3}, "quickonly", "parsed", "accepted", "rejected", "ran"),
 			c01("H_snip", map[string]int{"n": 1, "lo": 26, "hi": 29}, "quickonly", "parsed", "accepted", "rejected", "ran"),
 			c01("H_snip", n(1), "thorough", "parsed", "accepted", "rejected", "ran"),
-			c01("H_lex", n(2), "thorough", "lexed"), c01("H_lex_template", n(2), "thorough", "lexed"),
+			c01("H_lex_template", n(2), "thorough", "lexed"),
 			c01("H_parse", n(2), "thorough", "parsed"),
 			c01("H_lex", map[string]int{"n": 3, "ctx": 0}, "thorough", "lexed"),
 		},
